@@ -112,7 +112,7 @@ def gen_rich(ctx, i):
                     if rng.random() < 0.5:
                         h["sv_attrs"].append("schemars(description = \"two\")")
     if kind == 1:
-        spec.gen_reply_table(rng, p)
+        spec.gen_reply_table(rng, p, stage_shared=(i % 6 == 1))
         unify_payload_names(p)
         if i % 6 == 4:
             mix_raw_marks(rng, p)
